@@ -67,7 +67,7 @@ struct LoopCase {
     driver: String,
 }
 
-pub const DRIVERS: [&str; 9] = ["named-let", "callcc-backedge", "mutual-tail", "apply-tail", "do-nothing-but-builtins", "when-tail", "variadic-tail", "delay-force", "closure-threaded"];
+pub const DRIVERS: [&str; 10] = ["named-let", "callcc-backedge", "mutual-tail", "apply-tail", "do-nothing-but-builtins", "when-tail", "variadic-tail", "delay-force", "closure-threaded", "eval-tail"];
 
 /// The loop that runs the garbage expression n times. The back edge differs: a tail call of a
 /// named-let procedure; the re-entry of a continuation captured once (no procedure is entered
@@ -129,6 +129,11 @@ fn loop_definition(driver: &str, garbage: &str) -> Vec<String> {
                 garbage
             ),
             "(define (%garbage-loop n) (%cspin 0 n (lambda (i n) i)) (%cnamed n) 'done)".to_string(),
+        ],
+        // the back edge is the outermost call of an expression handed to eval in tail position
+        "eval-tail" => vec![
+            format!("(define (%espin i n) (if (< i n) (begin {} (eval (list '%espin (+ i 1) n))) 'done))", garbage),
+            "(define (%garbage-loop n) (%espin 0 n))".to_string(),
         ],
         "apply-tail" => vec![
             format!("(define (%spin i n) (if (< i n) (begin {} (apply %spin (+ i 1) (list n))) 'done))", garbage),
@@ -417,7 +422,7 @@ pub fn run(tier: Tier, seed: u64, ev: &mut Evidence) -> Vec<Violation> {
                 cases.push(LoopCase {
                     kind: kind.to_string(),
                     live: *rng.pick(&[0u64, 10, 1000, 3000]),
-                    n: *n,
+                    n: if *driver == "eval-tail" { (*n / 4).max(500) } else { *n },
                     factor: 10,
                     forms: *rng.pick(&[1u64, 1, 3]),
                     knobs: Knobs { slot_order_seed: 0, heap_chunk: chunk },
